@@ -57,6 +57,7 @@ def main(tier):
     fam('cycles', per_case_timeout=20, chunk=6)
     fam('scale', per_case_timeout=60, chunk=2)
     fam('dev1_mf', per_case_timeout=5)
+    fam('dev1_math_q', per_case_timeout=10)
     fam('shape_q', per_case_timeout=10)
     if not quick:
         fam('scale_hang', flavour='plain', per_case_timeout=4, chunk=1)
@@ -79,11 +80,11 @@ def main(tier):
              '(MathML inside math) element name, namespace := 8 URIs for the element alone and for its subtree; (c) 15 kinds of inserted child (text, '
              'comment, CDATA, character/undefined/declared entity references, PI, foreign elements) at every child position; (d) truncation at every '
              'token boundary; (x) 22 document-level byte edits (prolog, encodings, BOM, UTF-16, DOCTYPE, entity amplification, NUL, trailing data); '
-             'dev2_mf = every PAIR from a reduced alphabet (every 5th menu entry, delete/duplicate, one move target per parent name, ...) of the math-free '
+             'dev1_math_q (quick) = the attribute/text family (a) and every insertion into a ci/cn token element (also in front of its text; comments, PIs, 1000, 30000 and 60000 blanks) of 3 small math seeds (ode, math-small, power-units; thorough: all deviations of all 5), among them powers/roots of a non-dimensionless quantity whose exponent is a variable (initial_value := numbers, 1e999, empty, variable references); dev2_mf = every PAIR from a reduced alphabet (every 5th menu entry, delete/duplicate, one move target per parent name, ...) of the math-free '
              'seeds; shape_* = MathML trees over the validator\'s own vocabulary (supportedMathMLElements) + {csymbol, lambda, semantics, unknownop, sum}: '
              'apply(head, 0-3 ci|cn operands) and container(name, 0-3 children) top-level and as right-hand side, apply(H, C) for all H and C, one arbitrary '
              'operand among <= 3, containers with one arbitrary child, 10 filled qualifier forms in 5 arrangements, depth 3 over 14 arity-sensitive operators; '
-             'scale = 16 structures x n in {1,10,100} (thorough: 250, and 1000 on the plain build) x 8 isolated stages x 2 modes; conn = variable-equivalence networks (clique K_n and complete bipartite K_n,n for n in {4,8,12,16}; chain, star, ring for n in {10,100}; an ODE + reset inside and a constant outside the network; valid by construction) x 8 isolated stages with a 60 s / 120 s-alone hang horizon; cycles = 12 kinds x length 1-3 x 8 isolated '
+             'scale = 18 structures (incl. 600n blanks inside a token and between elements) x n in {1,10,100} (thorough: 250, and 1000 on the plain build) x 8 isolated stages x 2 modes; conn = variable-equivalence networks (clique K_n and complete bipartite K_n,n for n in {4,8,12,16}; chain, star, ring for n in {10,100}; an ODE + reset inside and a constant outside the network; valid by construction) x 8 isolated stages with a 60 s / 120 s-alone hang horizon; cycles = 12 kinds x length 1-3 x 8 isolated '
              'stages x 2 modes. judged = cases whose pipeline ran and returned (the crash oracle covers the others: a dead worker is a violation at that index); '
              '%d of the judged cases also carry the weak expectation ">= 1 error/warning reported"' % weak,
         assumptions=[
